@@ -35,6 +35,13 @@ theorem years_sui_fact : adjRec 1024 suiPair Gen.monthsChunks = true := by
     months_len_part0, months_len_part1, months_len_part2, records_append, List.length_append, Nat.zero_add, Nat.reduceAdd]
   rfl
 
+/-- TABLE FACT (C05 i): for every lunar month of lunar years 1961..8000 the table's first day equals the civil day
+(UTC+8) on which the conjunction computed by the full-precision inverse solver falls. -/
+theorem years_shuo_fact : allRec 1024 yearShuoOK Gen.monthsChunks = true := by
+  unfold allRec Gen.monthsChunks
+  simp only [allChunks_append, months_yearShuoOK_part0, months_yearShuoOK_part1, months_yearShuoOK_part2, months_yearShuoOK_part3,
+    months_len_part0, months_len_part1, months_len_part2, records_append, List.length_append, Nat.zero_add, Nat.reduceAdd, Bool.and_self]
+
 theorem yearRecs_length : yearRecs.length = 10000 := by
   unfold yearRecs Gen.monthsChunks
   simp only [records_append, List.length_append, months_len_part0, months_len_part1, months_len_part2, months_len_part3]
